@@ -14,6 +14,9 @@ import (
 
 type VShape struct {
 	Flips, Invitees, PubKey, NilBigs, Contracts bool
+	// InviteesOf: when non-zero, a bit mask (bit i-1 = tracked address i) of the identities that may have an
+	// invitee list; the lists of third parties, which the transaction under test only passes by, stay empty
+	InviteesOf byte
 }
 
 type VLazy struct {
@@ -87,7 +90,9 @@ func vSymAddr(name string) common.Address {
 	return a
 }
 
-func VBuildIdentity(tag string) Identity {
+func VBuildIdentity(tag string) Identity { return vBuildIdentity(tag, 0) }
+
+func vBuildIdentity(tag string, idx byte) Identity {
 	var id Identity
 	st := vU8(tag + ".state")
 	vAssume(st <= 8)
@@ -125,7 +130,7 @@ func VBuildIdentity(tag string) Identity {
 	id.penaltySeconds = vU16(tag + ".penaltySeconds")
 	id.penaltyTimestamp = vI64(tag + ".penaltyTimestamp")
 	id.Inviter = (*Inviter)(vNilIf(vBool(tag+".inviter.nil"), unsafe.Pointer(&Inviter{Address: vSymAddr(tag + ".inviter"), EpochHeight: vU32(tag + ".inviterEpochHeight")})))
-	if VL.Shape.Invitees && vBool(tag+".hasInvitee") {
+	if VL.Shape.Invitees && (VL.Shape.InviteesOf == 0 || idx != 0 && VL.Shape.InviteesOf&(1<<(idx-1)) != 0) && vBool(tag+".hasInvitee") {
 		id.Invitees = []TxAddr{{Address: vSymAddr(tag + ".invitee")}}
 	}
 	if VL.Shape.Flips && vBool(tag+".hasFlip") {
@@ -195,7 +200,7 @@ func (s *StateDB) vMaterializeIdentity(addr common.Address) {
 	VL.PreIdPresent[i] = present
 	VL.PreStake[i] = new(big.Int)
 	if present {
-		id := VBuildIdentity("id." + n)
+		id := vBuildIdentity("id."+n, i)
 		VL.PreStake[i] = new(big.Int).Set(stakeOrZero(&id))
 		VL.PreState[i] = id.State
 		VL.PreDelegatee[i] = id.Delegatee() // nil while an undelegation is pending: the identity has left its pool
